@@ -43,7 +43,7 @@ Fixpoint tdedupe (np nj : nat) (l acc : list tpath) : list tpath :=
   | p :: r => if tpath_seen np nj p acc then tdedupe np nj r acc else tdedupe np nj r (p :: acc)
   end.
 
-Definition texplore_fuel : nat := 4000.
+Definition texplore_fuel : nat := 100 * 200.
 
 (* apply one group to every path; returns the new paths, coverage, fuel-exhausted flag *)
 Definition tgroup (v : variant) (np nj : nat) (g : list tev) (acc : list tpath * list N * bool) : list tpath * list N * bool :=
@@ -101,7 +101,7 @@ Definition cgroup (checked : bool) (na nr : nat) (g : list cev) (acc : list cpat
   let step1 (a : list cpath * list N * bool) (p : cpath) :=
     let '(ps', cv, o) := a in
     let c := fold_left app_cev g (snd p) in
-    let x := c_explore checked na nr 4000 [c] (mkCX [] [] cv false) in
+    let x := c_explore checked na nr 4000 [c] (mkCX [] trie0 cv false) in
     (map (fun f => (c_mask na nr f :: fst p, f)) (cx_finals x) ++ ps', cx_cov x, o || cx_out x) in
   let '(ps2, cv2, o2) := fold_left step1 paths ([], cov, out) in
   (cdedupe na nr ps2 [], cv2, o2).
@@ -133,7 +133,7 @@ Definition ggroup (fixed : bool) (nw : nat) (g : list gev) (acc : list gpath * l
     if gbad (snd p) then (p :: ps', cv, o)
     else
       let s := fold_left app_gev g (snd p) in
-      let x := g_explore fixed nw 4000 [s] (mkGX [] [] cv false) in
+      let x := g_explore fixed nw 4000 [s] (mkGX [] trie0 cv false) in
       (map (fun f => (g_mask nw f :: fst p, f)) (gx_finals x) ++ ps', gx_cov x, o || gx_out x) in
   let '(ps2, cv2, o2) := fold_left step1 paths ([], cov, out) in
   (gdedupe nw ps2 [], cv2, o2).
@@ -163,8 +163,8 @@ Definition scen_cfg (shadow data : bool) : cfg := mkCfg (negb shadow) data false
 (* scenario numbers are shared with harness/area_conc.go *)
 Definition scen_of (n : N) (shadow : bool) : option scen :=
   match n with
-  | 1 => (* initial listing keeps failing; cancel during the second retry sleep *)
-      Some (mkScen (scen_cfg shadow false) (fun p => if is_boot_list p then ch_fail else ch_ok) is_boot_sleep 1)
+  | 1 => (* initial listing keeps failing; cancel during the first retry sleep *)
+      Some (mkScen (scen_cfg shadow false) (fun p => if is_boot_list p then ch_fail else ch_ok) is_boot_sleep 0)
   | 2 => (* initial listing blocks until the context is cancelled (then fails) *)
       Some (mkScen (scen_cfg shadow false) (fun p => if is_boot_list p then ch_fail else ch_ok) is_boot_list 0)
   | 3 => (* empty LMDB, listing fine: the loop idles in its poll sleep *)
